@@ -121,7 +121,11 @@ def parseScript (s : String) : ScriptInfo :=
       { acc with body := (bodyOfClass c).getD (.lit []), jsonClass := c == "json" }
     else acc
 
-def respOf (status : Nat) (si : ScriptInfo) : Resp :=
+/-- the scripted targets send no body with 1xx / 204 / 304 (whatever body class the script names) -/
+def statusHasNoBody (status : Nat) : Bool := status / 100 == 1 || status == 204 || status == 304
+
+def respOf (status : Nat) (si0 : ScriptInfo) : Resp :=
+  let si : ScriptInfo := if statusHasNoBody status then { si0 with body := .lit [], jsonClass := false } else si0
   { status := status
     header := fun name => ((si.headers.find? (·.1 == name)).map (·.2)).getD []
     bodyLen := si.body.len
